@@ -16,7 +16,7 @@ use crate::real::{self, Outcome};
 use crate::val::V;
 use rscel::{BindContext, CelContext, CelValue};
 use serde_json::json;
-use std::collections::BTreeMap;
+use std::collections::{BTreeMap, HashMap};
 use std::time::Duration;
 
 pub const ID: &str = "C12";
@@ -413,6 +413,17 @@ pub fn worker(args: &[String]) -> i32 {
                     let got = real::exec_in(&mut ctx, "p0", &b);
                     writeln!(out.lock(), "E {} {}", k, got.class()).ok();
                 }
+                "fanout" => {
+                    writeln!(out.lock(), "B {}", k).ok();
+                    out.lock().flush().ok();
+                    let mut ctx = rscel::CelContext::new();
+                    for (name, src) in fanout_programs(k) {
+                        let _ = ctx.add_program_str(&name, &src);
+                    }
+                    let b = BindContext::new();
+                    let got = real::exec_in(&mut ctx, "a", &b);
+                    writeln!(out.lock(), "E {} {}", k, got.class()).ok();
+                }
                 _ => {
                     // chains: k -> (len 1..=64, no loop | loop of 1 element | loop of 64 elements)
                     let len = (k / 3) as usize + 1;
@@ -453,11 +464,16 @@ struct ChildCase {
 
 /// run [start, end) in child processes, restarting after a death
 fn run_in_children(bin: &str, kind: &str, p: usize, start: u64, end: u64, stack: usize) -> Vec<ChildCase> {
+    run_in_children_within(bin, kind, p, start, end, stack, 600)
+}
+
+/// `budget_s`: processor seconds one child may consume before it counts as a hang
+fn run_in_children_within(bin: &str, kind: &str, p: usize, start: u64, end: u64, stack: usize, budget_s: u64) -> Vec<ChildCase> {
     let mut out = Vec::new();
     let mut from = start;
     while from < end {
         let args: Vec<String> = vec!["C12".into(), "--worker".into(), kind.into(), p.to_string(), from.to_string(), end.to_string(), stack.to_string()];
-        let r = run_child_keep_output(bin, &args, Duration::from_secs(600));
+        let r = run_child_keep_output(bin, &args, Duration::from_secs(budget_s));
         let (text, death) = match r {
             (t, None) => (t, None),
             (t, Some(d)) => (t, Some(d)),
@@ -620,6 +636,84 @@ fn cyclic_range(g: &Graphs, from: u64, to: u64, acc: &mut Acc) {
     }
 }
 
+// ---------------------------------------------------------------------------
+// cycles that fan out: every program reads the cycle twice. The depth error must end the whole
+// evaluation at once; if it were absorbed into a value the evaluation would visit 2^32 nodes.
+
+const FANOUT_SHAPES: u64 = 3;
+
+fn fanout_programs(k: u64) -> Vec<(String, String)> {
+    let cons = (k / FANOUT_SHAPES) as usize;
+    match k % FANOUT_SHAPES {
+        0 => vec![("a".into(), format!("({}) + ({})", edge_src(cons, "a"), edge_src(cons, "a")))],
+        1 => vec![
+            ("a".into(), format!("({}) + ({})", edge_src(cons, "b"), edge_src(cons, "b"))),
+            ("b".into(), format!("({}) + 1", edge_src(cons, "a"))),
+        ],
+        _ => vec![("a".into(), format!("[{}, {}][0]", edge_src(cons, "a"), edge_src(cons, "a")))],
+    }
+}
+
+fn fanout_size() -> u64 {
+    NCONS_ALL as u64 * FANOUT_SHAPES
+}
+
+fn fanout_range(from: u64, to: u64, acc: &mut Acc) {
+    let profs = profiles();
+    for (pname, bin) in &profs {
+        let cases: Vec<ChildCase> = std::thread::scope(|s| {
+            let hs: Vec<_> = (from..to)
+                .map(|k| {
+                    let bin = bin.clone();
+                    s.spawn(move || run_in_children_within(&bin, "fanout", 0, k, k + 1, 0, 90))
+                })
+                .collect();
+            hs.into_iter().flat_map(|h| h.join().unwrap()).collect()
+        });
+        for c in cases {
+            acc.index = c.k;
+            acc.eval();
+            acc.nontrivial(&("fanout", c.k, *pname));
+            let cons = CONS_NAMES[(c.k / FANOUT_SHAPES) as usize];
+            let shape = ["self-loop read twice", "two-cycle read twice", "self-loop read twice in a list"][(c.k % FANOUT_SHAPES) as usize];
+            let case = json!({"programs": fanout_programs(c.k), "exec": "a", "profile": pname});
+            match (&c.result, &c.died) {
+                (Some(r), _) => {
+                    acc.class(r);
+                    if !r.starts_with("fail:") && c.k % FANOUT_SHAPES != 2 {
+                        acc.violation(&format!("fan-out cycle through {} ({}) not-an-error [{}]", cons, shape, pname), case, "an error (the reference chain is cyclic)".into(), r.clone());
+                    }
+                }
+                (None, Some(d)) => {
+                    acc.class("abort-or-hang");
+                    acc.violation(
+                        &format!("fan-out cycle through {} ({}) does-not-return [{}]", cons, shape, pname),
+                        case,
+                        "an error within 90 s of processor time (on the unchanged tree: milliseconds)".into(),
+                        d.clone(),
+                    );
+                }
+                _ => {}
+            }
+            if acc.wants_sample() {
+                acc.sample(json!({"programs": fanout_programs(c.k), "observed": c.result}));
+            }
+        }
+    }
+}
+
+fn run_fanout(rep: &mut Report) {
+    if profiles().is_empty() {
+        rep.caps.push("no child binaries available: fan-out cycles not executed".into());
+        return;
+    }
+    let mut acc = Acc::default();
+    acc.family = "fanout-cycles".into();
+    fanout_range(0, fanout_size(), &mut acc);
+    rep.family_sizes.push(("fanout-cycles".into(), acc.evaluations));
+    rep.acc.merge(acc);
+}
+
 fn run_chains(rep: &mut Report) {
     if profiles().is_empty() {
         rep.caps.push("no child binaries available: chains not executed".into());
@@ -660,7 +754,15 @@ fn chains_of(constructs: &[usize], acc: &mut Acc) {
                         let loop_desc = ["none", "1 element", "64 elements"][with_loop as usize];
                     let case = json!({"construct": CONS_NAMES[cons], "length": len, "loop_inside_the_middle_link": loop_desc, "profile": pname, "stack": sname});
                     let want = chain_val(cons, len);
-                    let must_work = with_loop == 0 && if cons <= 1 { len <= 16 } else { len <= 4 };
+                    // 16 programs (15 links) through every single referencing construct; the two edges
+                    // that stack two constructs per link (a call around an f-string, a call around a
+                    // macro body) have no floor of their own in the statement
+                    let must_work = with_loop == 0
+                        && match cons {
+                            0 | 1 => len <= 16,
+                            7 | 11 => len <= 4,
+                            _ => len <= 15,
+                        };
                     match (&c.result, &c.died) {
                         (None, Some(d)) => {
                             acc.class("abort");
@@ -789,6 +891,56 @@ impl Jsons {
     }
 }
 
+// ---------------------------------------------------------------------------
+// a map field wins over a method (function or macro) of the same name: every name of the tables
+
+fn field_names() -> Vec<String> {
+    crate::props::c01::builtin_names().unwrap_or_default()
+}
+
+fn run_field_vs_builtin(idx: u64, acc: &mut Acc) {
+    let names = field_names();
+    let name = &names[idx as usize];
+    acc.nontrivial(&("field", name.clone()));
+    let mut h = HashMap::new();
+    h.insert(name.clone(), CelValue::Int(7));
+    h.insert("other".to_string(), CelValue::Int(8));
+    let mut bound = BindContext::new();
+    bound.bind_param("m", CelValue::Map(h));
+    let mut from_json = BindContext::new();
+    let _ = from_json.bind_params_from_json_obj(json!({"m": {name.as_str(): 7, "other": 8}}));
+    let lit = format!("{{'{}': 7, 'other': 8}}", name);
+    let cases: Vec<(String, &str, V, &BindContext)> = vec![
+        (format!("m.{}", name), "bound map", V::Int(7), &bound),
+        (format!("m.{}", name), "map bound from JSON", V::Int(7), &from_json),
+        (format!("{}.{}", lit, name), "map literal", V::Int(7), &bound),
+        (format!("{{'{}': other7}}.{}", name, name), "map literal with a variable value", V::Int(7), &bound),
+        (format!("has(m.{})", name), "has on a bound map", V::Bool(true), &bound),
+        (format!("coalesce(m.{}, 0)", name), "coalesce on a bound map", V::Int(7), &bound),
+        (format!("[m].map(e, e.{})[0]", name), "through a loop variable", V::Int(7), &bound),
+        (format!("m.{} + m.other", name), "next to another field", V::Int(15), &bound),
+    ];
+    let mut with_var = bound.clone();
+    with_var.bind_param("other7", CelValue::Int(7));
+    for (src, how, want, b) in cases {
+        let b = if src.contains("other7") { &with_var } else { b };
+        let got = real::eval_with(&src, b);
+        acc.eval();
+        acc.class(&got.class());
+        if !got.value().map(|g| g.same(&want)).unwrap_or(false) {
+            acc.violation(
+                &format!("field named like a built-in is not read as a field ({})", how),
+                json!({"src": src, "field": name, "m": format!("{{'{}': 7, 'other': 8}}", name)}),
+                want.show(),
+                got.show(),
+            );
+        }
+    }
+    if acc.wants_sample() {
+        acc.sample(json!({"field": name}));
+    }
+}
+
 pub fn replay_families(t: Tier) -> Vec<Family<'static>> {
     let (g, g4) = graph_sets(t);
     let g: &'static Graphs = Box::leak(Box::new(g));
@@ -796,6 +948,7 @@ pub fn replay_families(t: Tier) -> Vec<Family<'static>> {
     let j: &'static Jsons = Box::leak(Box::new(Jsons { vals: json_values() }));
     vec![
         Family::new("collisions", 6 * 8 * IDENT_CTX.len() as u64, run_collision),
+        Family::new("fields-named-like-built-ins", field_names().len() as u64, run_field_vs_builtin),
         Family::new("acyclic-graphs", g.size(), move |i, a| g.run(i, a)),
         Family::new("acyclic-graphs-b", g4.size(), move |i, a| g4.run(i, a)),
         Family::new("json", j.vals.len() as u64, move |i, a| j.run(i, a)),
@@ -803,6 +956,7 @@ pub fn replay_families(t: Tier) -> Vec<Family<'static>> {
         Family::new(&cyclic_family_name(g), g.size(), move |i, a| cyclic_range(g, i, i + 1, a)),
         Family::new(&cyclic_family_name(g4), g4.size(), move |i, a| cyclic_range(g4, i, i + 1, a)),
         Family::new("chains", (NCONS_ALL as u64) << 16, move |i, a| chains_of(&[(i >> 16) as usize], a)),
+        Family::new("fanout-cycles", fanout_size(), move |i, a| fanout_range(i, i + 1, a)),
     ]
 }
 
@@ -811,12 +965,13 @@ pub fn run(t: Tier) -> i32 {
     let (g, g4) = graph_sets(t);
     let j = Jsons { vals: json_values() };
     rep.rule = format!(
-        "collisions: every subset of {{variable, stored program}} behind identifiers v and int (a type name) in 8 contexts (bare, list element, function argument, macro body, ?: branch, map value, coalesce, f-string), of {{bound function, macro}} in call position for g and int (a type constructor), field vs method for m.g and m.g(), and rebinding/re-adding through bind_param and through the JSON entry point in both orders; graphs: ALL {} reference graphs on {} named programs (quick: 3 programs x the 9 core constructs plus 2 programs x all 18; thorough: 3 x 18 plus 4 x 9) with out-degree <= 1 where every edge goes through one of 18 referencing constructs (bare identifier, arithmetic operand, call argument, has, coalesce, f-string, ?: branch, and every macro site: map body over a list and over a map, map range, map/3, filter over a list and over a map, all, exists, exists_one, reduce step and seed): acyclic from p0 -> value by substitution (in-process), a cycle reachable from p0 -> an error, each run in child processes in two build profiles on an 8 MiB main stack and a 2 MiB thread stack: never an abort; chains: length 1..64 through each of the 18 constructs, without a loop and with a 1-element and a 64-element macro loop inside the middle link, same child set-up: correct value up to 16 links (bare, arithmetic) / 4 links (others), value or error beyond, never an abort, 64 iterations give the same outcome class as one; json: {} JSON values of depth <= 2 over 9 atoms bound from JSON vs bound directly (structural equality, ==, inside a list, type). Non-trivial = every case",
+        "collisions: every subset of {{variable, stored program}} behind identifiers v and int (a type name) in 8 contexts (bare, list element, function argument, macro body, ?: branch, map value, coalesce, f-string), of {{bound function, macro}} in call position for g and int (a type constructor), field vs method for m.g and m.g(), and rebinding/re-adding through bind_param and through the JSON entry point in both orders; fields-named-like-built-ins: for every name of the function, macro and type tables a map holding a field of that name, bound directly, bound from JSON, written as a literal and reached through a loop variable: m.name, has(m.name) and coalesce(m.name, 0) read the field; graphs: ALL {} reference graphs on {} named programs (quick: 3 programs x the 9 core constructs plus 2 programs x all 18; thorough: 3 x 18 plus 4 x 9) with out-degree <= 1 where every edge goes through one of 18 referencing constructs (bare identifier, arithmetic operand, call argument, has, coalesce, f-string, ?: branch, and every macro site: map body over a list and over a map, map range, map/3, filter over a list and over a map, all, exists, exists_one, reduce step and seed): acyclic from p0 -> value by substitution (in-process), a cycle reachable from p0 -> an error, each run in child processes in two build profiles on an 8 MiB main stack and a 2 MiB thread stack: never an abort; chains: length 1..64 through each of the 18 constructs, without a loop and with a 1-element and a 64-element macro loop inside the middle link, same child set-up: correct value up to 16 links (bare, arithmetic), 15 links = 16 programs (every other single construct) and 4 links (the two edges that stack two constructs), value or error beyond, never an abort, 64 iterations give the same outcome class as one; fanout-cycles: for each of the 18 constructs a self-loop and a two-cycle whose program reads the cycle twice (and a self-loop read twice inside a list): the evaluation returns an error within 90 s of processor time in both profiles (absorbing the depth error into a value would make it visit 2^32 nodes); json: {} JSON values of depth <= 2 over 9 atoms bound from JSON vs bound directly (structural equality, ==, inside a list, type). Non-trivial = every case",
         g.size() + g4.size(),
         format!("{} resp. {}", g.n, g4.n),
         j.vals.len()
     );
     rep.run_family(Family::new("collisions", 6 * 8 * IDENT_CTX.len() as u64, run_collision));
+    rep.run_family(Family::new("fields-named-like-built-ins", field_names().len() as u64, run_field_vs_builtin));
     rep.run_family(Family::new("acyclic-graphs", g.size(), |i, a| g.run(i, a)));
     run_cyclic_graphs(&g, &mut rep);
     let mut total_graphs = g.size();
@@ -824,6 +979,7 @@ pub fn run(t: Tier) -> i32 {
     run_cyclic_graphs(&g4, &mut rep);
     total_graphs += g4.size();
     run_chains(&mut rep);
+    run_fanout(&mut rep);
     rep.run_family(Family::new("json", j.vals.len() as u64, |i, a| j.run(i, a)));
     let cyc = rep.acc.counters.get("graphs with a reachable cycle (run in child processes)").cloned().unwrap_or(0);
     rep.set("states", json!(total_graphs));
